@@ -56,7 +56,7 @@ def _special(m: Model, p: dict) -> bool:
     return bool(p["type"]["kind"] == "stringLiteral" or m.admits_null(p["type"]) or p.get("_always"))
 
 
-def roundtrip_relation(objects: Objects, o: Any, tv: TV, locus: str = "$", ctx: str = "-") -> List[Finding]:
+def roundtrip_relation(objects: Objects, o: Any, tv: TV, locus: str = "$", ctx: str = "-", strict: bool = False) -> List[Finding]:
     """o ~ j up to the documented null rule, directed by the reading tv (C01).
 
     locus: metamodel locus of the position; ctx: innermost enclosing union
@@ -65,7 +65,7 @@ def roundtrip_relation(objects: Objects, o: Any, tv: TV, locus: str = "$", ctx: 
     m = objects.model
     out: List[Finding] = []
     if isinstance(tv, U):
-        return roundtrip_relation(objects, o, tv.child, locus, f"{tv.occ}#{tv.idx}")
+        return roundtrip_relation(objects, o, tv.child, locus, f"{tv.occ}#{tv.idx}", strict)
     if isinstance(tv, N):
         if o is not None:
             out.append(("changed", locus, ctx, f"null became {short(o)}"))
@@ -85,7 +85,7 @@ def roundtrip_relation(objects: Objects, o: Any, tv: TV, locus: str = "$", ctx: 
             out.append(("changed", locus, ctx, f"array length {len(tv.items)} became {len(o)}"))
         else:
             for i, (x, y) in enumerate(zip(o, tv.items)):
-                out.extend(roundtrip_relation(objects, x, y, f"{locus}/[]", ctx))
+                out.extend(roundtrip_relation(objects, x, y, f"{locus}/[]", ctx, strict))
         return out
     if isinstance(tv, Mp):
         if not isinstance(o, dict):
@@ -95,7 +95,7 @@ def roundtrip_relation(objects: Objects, o: Any, tv: TV, locus: str = "$", ctx: 
             out.append(("changed", locus, ctx, f"map keys {short(sorted(tv.items))} became {short(sorted(o))}"))
             return out
         for k, v in tv.items.items():
-            out.extend(roundtrip_relation(objects, o[k], v, f"{locus}/{{}}", ctx))
+            out.extend(roundtrip_relation(objects, o[k], v, f"{locus}/{{}}", ctx, strict))
         return out
     if isinstance(tv, S):
         if not isinstance(o, dict):
@@ -106,17 +106,26 @@ def roundtrip_relation(objects: Objects, o: Any, tv: TV, locus: str = "$", ctx: 
             p = props[k]
             ploc = objects.prop_locus(tv.key, p)
             if k in o:
-                out.extend(roundtrip_relation(objects, o[k], v, ploc, ctx))
+                if strict and o[k] is None and erase(v) is None and p.get("optional") and not _special(m, p):
+                    out.append(("invented", ploc, ctx, "unset optional property written as null"))
+                out.extend(roundtrip_relation(objects, o[k], v, ploc, ctx, strict))
             else:
                 if erase(v) is None and p.get("optional") and not _special(m, p):
                     continue  # null == absent for optional non-special properties
                 out.append(("lost", ploc, ctx, "property absent after round trip"))
+        if strict:
+            # exact normal form: special properties are always written
+            for k, p in props.items():
+                if k not in tv.props and k not in o and _special(m, p):
+                    out.append(("lost", objects.prop_locus(tv.key, p), ctx, "always-written property absent"))
         for k in o:
             if k in tv.props:
                 continue
-            if o[k] is None:
-                continue
             p = props.get(k)
+            if o[k] is None:
+                if strict and not (p is not None and (m.admits_null(p["type"]) or p.get("_always"))):
+                    out.append(("invented", f"{locus}+{k}", ctx, "unset optional property written as null"))
+                continue
             if p is not None and p["type"]["kind"] == "stringLiteral" and o[k] == p["type"]["value"]:
                 continue
             out.append(("invented", f"{locus}+{k}", ctx, f"property appeared with value {short(o[k])}"))
